@@ -61,7 +61,6 @@ func vC15FileSkip(tpl, cfg, cs, skip int) []byte {
 //       1 = every read returns at most mr bytes
 //       2 = the last bytes arrive together with io.EOF (optionally with mr)
 func VC15Frag() {
-	vIdealCRC() // two CRC values are equal exactly when the bytes fed are equal (no accidental collisions)
 	tpl, cfg, cs, validate, rd, mode := vParam("tpl"), vParam("cfg"), vParam("cs"), vParam("validate"), vParam("rd"), vParam("mode")
 	file := vC15File(tpl, cfg, cs)
 	lopts := &LexerOptions{ValidateChunkCRCs: validate == 1, Decompressors: vDecompressors(cfg)}
@@ -113,7 +112,6 @@ func VC15Frag() {
 // read ends with an error that is not end-of-file.
 // params: tpl, cfg, cs, validate, rd, lo, hi (cell of the error position E), with (1: last bytes and error in one call)
 func VC15Err() {
-	vIdealCRC() // two CRC values are equal exactly when the bytes fed are equal (no accidental collisions)
 	tpl, cfg, cs, validate, rd := vParam("tpl"), vParam("cfg"), vParam("cs"), vParam("validate"), vParam("rd")
 	lo, hi := vParam("lo"), vParam("hi")
 	file := vC15File(tpl, cfg, cs)
@@ -168,7 +166,6 @@ func VC15Err() {
 // error - never a clean end-of-file, never a crash - and the messages returned before it are a prefix.
 // params: tpl, cfg, cs, ord, skip, slo, shi (cell of S)
 func VC15Seek() {
-	vIdealCRC() // two CRC values are equal exactly when the bytes fed are equal (no accidental collisions)
 	tpl, cfg, cs, ord := vParam("tpl"), vParam("cfg"), vParam("cs"), vParam("ord")
 	// skip: Skip* mask of the writer (64 = no chunk indexes: Messages() then falls back to a scan after seeking back)
 	file := vC15FileSkip(tpl, cfg, cs, vParam("skip"))
